@@ -76,6 +76,7 @@ class SimFunction(Function):
     """Integrand played by the simulator: `nnoise` components that are arbitrary per point (keyed hash,
     optional jump) followed by analytic probe components. Subclass of the library's Function, so the real
     __call__ / cache / vectorised paths run; only eval is the stub. Counts distinct points itself."""
+    CALL_BUDGET = 1500000
 
     def __init__(self, key, nnoise=1, probes=(), a=None, b=None, jump=None, offset=0.0, symmetric=False):
         super().__init__()
@@ -97,6 +98,12 @@ class SimFunction(Function):
         p = tuple(float(x) for x in coordinates)
         self.seen.add(p)
         self.calls += 1
+        if self.calls > self.CALL_BUDGET:
+            # deterministic cost budget of a run (a step cap on the environment's side): histories whose single refinement step
+            # evaluates component grids of millions of points (observed: the automatic split/extend estimate of an area with a large
+            # coarsening value builds the parent scheme at lmax + coarsening) are cut and counted as excluded, independent of machine load
+            from simcore.ctx import Excluded
+            raise Excluded("integrand evaluation budget of the run exhausted")
         return self.peek(p)
 
     def peek(self, p):
